@@ -813,6 +813,10 @@ def to_str(I, v):
         return Opaque('str', 'str(exc)', taint_of(v), {'nonempty'})
     if isinstance(v, Opaque) and v.pykind == 'str':
         return v
+    if isinstance(v, SInt):
+        r = Opaque('str', 'str(int)', taint_of(v), {'nonempty'})
+        r.fields['__str_of__'] = v
+        return r
     if is_symbolic(v):
         facts = {'nonempty'} if isinstance(v, (SInt, SBool, SEnum)) else set()
         if isinstance(v, Opaque):
